@@ -83,6 +83,7 @@ type pump struct {
 // sessions nobody will ever open (each login is handed to the audit worker).
 func startSshdPump(path string, d *daemon) (*pump, error) {
 	return startPumpGen(path, d, "", 0, func(seq int) []byte {
+		time.Sleep(200 * time.Microsecond) // a busy sshd, not a flood: a few thousand logins a second
 		return []byte(fmt.Sprintf("%d Accepted password for load%d from 10.8.0.1 port %d ssh2\n", 500000+seq, seq, 1024+seq%60000))
 	})
 }
@@ -217,6 +218,10 @@ func c08Run(r *vlib.Run, sc c08Scenario, idx int) (evaluated bool) {
 		r.Inconclusive(label + ": cannot start daemon: " + err.Error())
 		return false
 	}
+	if os.Getenv("VERIF_DEBUG") != "" {
+		fmt.Println("DEBUG start", time.Now().Format("15:04:05.000"), label, fmt.Sprintf("%+v", sc))
+		defer func() { fmt.Println("DEBUG end  ", time.Now().Format("15:04:05.000"), label, fmt.Sprintf("%+v", sc)) }()
+	}
 	defer d.cleanup()
 	wit := map[string]any{"scenario": sc, "index": idx}
 	sig := "C08:" + sc.Cause
@@ -268,7 +273,7 @@ func c08Run(r *vlib.Run, sc c08Scenario, idx int) (evaluated bool) {
 			if o.outPath == "" && ws != nil { // (a FIFO output has no outPath in the options either)
 				// bind a session first: login line, wait for its UserLogin in the output
 				io.WriteString(ws, "31337 Accepted password for load from 10.9.9.9 port 999 ssh2\n")
-				if d.waitForOutput(func(b []byte) bool { return strings.Contains(string(b), `"loggedAs":"load"`) }, 60*time.Second) {
+				if d.waitForOutput(func(b []byte) bool { return bytes.Contains(b, []byte(`"loggedAs":"load"`)) }, 60*time.Second) {
 					ses, pid = "31337", 31337
 				}
 			}
